@@ -126,6 +126,10 @@ def run_tlc(
     if env:
         e.update({k: str(v) for k, v in env.items()})
     t0 = time.time()
+    # the timeouts in the property modules were chosen on an otherwise idle machine (10-100 x the observed run time);
+    # a machine shared with other jobs (load 100-300 was seen while building) can eat that margin: a timeout is a
+    # machinery failure, never a verdict, so it only needs to bound a hang
+    timeout = int(timeout * float(os.environ.get("VERIF_TLC_TIMEOUT_FACTOR", "4")))
     try:
         p = subprocess.run(cmd, cwd=workdir, env=e, capture_output=True, text=True, timeout=timeout)
         out = p.stdout + ("\n" + p.stderr if p.stderr.strip() else "")
